@@ -126,7 +126,12 @@ func replayDump(R *Result, in dumpInput, beh []dumpStep, bi int) error {
 					if in.Native {
 						fl := byte(0)
 						if del {
-							fl, v = 1, nil
+							fl = 1
+							if k%2 == 0 {
+								v = nil
+							} else {
+								v = []byte("value-left-in-a-marker") // a marker written by an application that kept a value
+							}
 						}
 						extra := 0
 						if (counter+di)%2 == 0 {
